@@ -2,11 +2,42 @@ import J5V.Go.Hex
 import J5V.Bcl.Parser
 import J5V.Bcl.Utf8
 import J5V.Bcl.UnicodeTbl
+import J5V.Walker.Facts
+import J5V.Walker.Walk
+import J5V.Walker.Stub
+import J5V.Walker.Dump
 /-! Line-protocol driver for the schema-driven BCL walker model (core only); protocol:
-`harness/PROTOCOL-walker.md`. STUB: answers `bad-op` until the model lands. -/
-open J5V.Go J5V.Bcl
+`harness/PROTOCOL-walker.md`.
 
-def step (_cls : Cls) (_line : String) : String := "bad-op"
+`walk HEX(filename) HEX(source)` → `perr` | `ok DUMP` | `err POS` | `panic` | `bad-op`:
+decode the source (`decodeRunes`), `parseFile cls runes true` (`.errors` → `perr`, `.panic` →
+`panic`), then `walkSchema j5Env f.body (stub j5Env filename)`.
+`WALKER_DEBUG=1` appends the model's error site / panic reason to `err` / `panic` lines. -/
+open J5V.Go J5V.Bcl J5V.Walker
+
+def pt (p : Pos) : String := toString p.line ++ ":" ++ toString p.col
+
+def posStr : Option Span → String
+  | none => "nopos"
+  | some s => pt s.start ++ "-" ++ pt s.end_
+
+def opWalk (cls : Cls) (debug : Bool) (filename source : List Nat) : String :=
+  match parseFile cls (decodeRunes source) true with
+  | .errors _ => "perr"
+  | .panic w => if debug then "panic " ++ w else "panic"
+  | .tree f =>
+    match walkSchema j5Env f.body (stub j5Env filename) with
+    | .ok tree => "ok " ++ dump j5Env tree
+    | .err e => "err " ++ posStr e.pos ++ (if debug then " " ++ e.what else "")
+    | .panic w => if debug then "panic " ++ w else "panic"
+
+def step (cls : Cls) (debug : Bool) (line : String) : String :=
+  match line.trimAscii.toString.splitOn " " with
+  | ["walk", hn, hs] =>
+    match fromHex hn, fromHex hs with
+    | some name, some src => opWalk cls debug name src
+    | _, _ => "bad-op"
+  | _ => "bad-op"
 
 partial def loop (f : String → String) (h : IO.FS.Stream) (out : IO.FS.Stream) : IO Unit := do
   let line ← h.getLine
@@ -16,7 +47,8 @@ partial def loop (f : String → String) (h : IO.FS.Stream) (out : IO.FS.Stream)
 
 def main : IO Unit := do
   let out ← IO.getStdout
+  let debug := (← IO.getEnv "WALKER_DEBUG").isSome
   match (← loadTbl) with
   | none => loop (fun _ => "bad-table") (← IO.getStdin) out
-  | some t => loop (step t.cls) (← IO.getStdin) out
+  | some t => loop (step t.cls debug) (← IO.getStdin) out
   out.flush
